@@ -238,6 +238,11 @@ def root_of(t):
 
 
 ALGORITHMS = ('for_each', 'find_if', 'find_if_not', 'any_of', 'all_of', 'none_of', 'count_if', 'accumulate')
+MUTATING_ALGOS = ('rotate', 'remove_if', 'remove', 'sort', 'stable_sort', 'reverse', 'partition', 'stable_partition', 'unique', 'shuffle',
+                  'fill', 'fill_n', 'generate', 'generate_n', 'copy', 'copy_if', 'copy_n', 'copy_backward', 'move_backward', 'swap_ranges',
+                  'replace', 'replace_if', 'nth_element', 'partial_sort', 'sample', 'inplace_merge', 'merge', 'next_permutation', 'prev_permutation')
+READING_ALGOS = ('find', 'count', 'min_element', 'max_element', 'minmax_element', 'lower_bound', 'upper_bound', 'equal_range', 'binary_search',
+                 'equal', 'mismatch', 'search', 'adjacent_find', 'is_sorted', 'is_partitioned', 'all_of', 'lexicographical_compare', 'reduce')
 
 
 class LambdaMethod:
@@ -286,7 +291,7 @@ class Evaluator:
         if k in ('int', 'bool', 'enum', 'ctor', 'now', 'rng', 'pred', 'res', 'adv', 'add', 'bin', 'cmp', 'not',
                  'unk', 'global', 'cast', 'hasval', 'optval', 'float', 'str', 'pair', 'undef', 'some', 'lv', 'ld', 'ma',
                  'fn', 'void', 'default', 'un', 'mcall', 'fncall', 'randdev', 'rng-state', 'iota', 'lambda', 'addr', 'vit',
-                 'atomicval', 'persistent', 'guardval'):
+                 'atomicval', 'persistent', 'guardval', 'inserter'):
             if k == 'lv' and loc in st.store:
                 return st.store[loc]
             return loc
@@ -360,6 +365,10 @@ class Evaluator:
         if isinstance(loc, tuple) and loc[0] == 'fld' and isinstance(loc[1], tuple) and loc[1][0] in ('idx', 'deref'):
             st.fieldwrites.setdefault(loc[2], []).append(loc[1])
         r = root_of(loc)
+        if r[0] == 'field' and isinstance(val, tuple) and val and val[0] == 'adv' and len(val) > 3 and how not in ('++', '--') \
+                and val[3] != st.epoch(('shape', 'list_it')) and isinstance(val[2], tuple) and val[2][0] in ('ld', 'adv'):
+            # std::prev / std::next evaluated before the list was re-linked, stored after it: it names the neighbour of then, not of now
+            st.ev('stale-pos', loc, val, site_of(n, st))
         if r[0] in ('field', 'res', 'this', 'param', 'other', 'heap'):
             st.ev('wr', loc, val, site_of(n, st), how)
         else:
@@ -943,6 +952,47 @@ class Evaluator:
         if name in ALGORITHMS and len(args) >= 3:
             yield from self.algorithm(n, name, args, st)
             return
+        if name in ('back_inserter', 'front_inserter', 'inserter') and args:
+            for st2, c in self.eval(args[0], st):
+                yield st2, ('inserter', name, c)
+            return
+        if name == 'transform' and len(args) == 4:
+            yield from self.algorithm(n, name, args, st)
+            return
+        if name in MUTATING_ALGOS or name in READING_ALGOS:
+            # an <algorithm> the engine has no exact summary for: conservatively, a mutating one changes every range it is given
+            # (a structure write on a member container, a re-ordering of a caller's range), a reading one reads them
+            for st2, ts in self.eval_args(args, st):
+                seen = set()
+                for t, a in zip(ts, args):
+                    if typeclass(qt(a)) not in ITERATORS and not (isinstance(t, tuple) and t and t[0] in ('q', 'adv', 'vit', 'lv')):
+                        continue
+                    c = t
+                    while isinstance(c, tuple) and c and c[0] in ('adv',):
+                        c = c[2]
+                    cont = c[2] if isinstance(c, tuple) and c and c[0] == 'q' else (c[1] if isinstance(c, tuple) and c and c[0] == 'vit' else None)
+                    if cont is None or cont in seen:
+                        continue
+                    seen.add(cont)
+                    k = st2.fresh()
+                    res = ('res', k)
+                    ctc = 'list'
+                    rt = root_of(cont)
+                    if rt[0] == 'field' and rt[1] in self.cm.field_by_name:
+                        ctc = typeclass(self.cm.field_by_name[rt[1]].type)
+                    if name in MUTATING_ALGOS:
+                        st2.results[k] = (cont, 'algo:' + name, tuple(ts), ctc)
+                        st2.ev('call', cont, 'algo:' + name, tuple(ts), res, site_of(n, st2), ctc, frozenset(['unmodelled']))
+                        st2.bump(cont, ctc)
+                        st2.decided.clear()
+                    else:
+                        st2.ev('q', ('q', 'algo:' + name, cont, (), st2.epoch(cont)), site_of(n, st2))
+                for t, a in zip(ts, args):
+                    if typeclass(qt(a)) == 'rng' or (isinstance(t, tuple) and t and root_of(t)[0] == 'field' and typeclass(qt(a)) == 'rng'):
+                        kk = st2.fresh()
+                        st2.ev('rng', ('rng', kk), ('algo', name), t, site_of(n, st2))
+                yield st2, ('fncall', name, tuple(ts))
+            return
         if name == 'exchange' and len(args) == 2:
             # old = a; a = b; return old
             for st2, lt in self.eval(args[0], st):
@@ -1098,6 +1148,14 @@ class Evaluator:
             rest = args[2:]
             acc_loc = None
             stx = st2
+            out_ins = None
+            if name == 'transform':
+                ov = list(self.rv(rest[0], stx))
+                if len(ov) != 1 or not (isinstance(ov[0][1], tuple) and ov[0][1] and ov[0][1][0] == 'inserter'):
+                    yield stx, self.unknown(stx, 'call:transform into something that is not a std::back_inserter', n)
+                    continue
+                stx, out_ins = ov[0]
+                rest = rest[1:]
             if name == 'accumulate':
                 if len(rest) != 2:
                     yield stx, self.unknown(stx, 'call:%s' % name, n)
@@ -1174,6 +1232,13 @@ class Evaluator:
             for st_b, rv_ in self.inline(lam, call_args, n, it_st):
                 if name == 'for_each':
                     L.iters.append(Path(step(st_b).trace, None, 'continue', st_b))
+                elif name == 'transform':
+                    # *out++ = f(x)  with out = std::back_inserter(c):  c.push_back(f(x))
+                    kk = st_b.fresh()
+                    st_b.results[kk] = (out_ins[2], 'push_back', (rv_,), 'vector')
+                    st_b.ev('call', out_ins[2], 'push_back' if out_ins[1] != 'front_inserter' else 'push_front', (rv_,), ('res', kk), site, 'vector',
+                            frozenset())
+                    L.iters.append(Path(step(st_b).trace, None, 'continue', st_b))
                 elif name == 'accumulate':
                     self.write(st_b, res_loc, rv_, n, '=')
                     L.iters.append(Path(step(st_b).trace, None, 'continue', st_b))
@@ -1213,6 +1278,8 @@ class Evaluator:
             self.havoc(stx, ids, lid, 'post')
             if name == 'for_each':
                 yield stx, fv
+            elif name == 'transform':
+                yield stx, out_ins
             elif name in ('find_if', 'find_if_not'):
                 yield stx, (self.load(stx, it_loc, n) if not same_range else ('lv', '$it', lid, 'post', it_id))
             else:
@@ -1906,9 +1973,26 @@ class Evaluator:
                 else:
                     yield from runpre(i + 1, st2)
 
+        if pre:
+            # if (init; cond): what the init-statement declares (a lock guard!) lives exactly as long as the if statement
+            st.scope += 1
+            depth = st.scope
+            for st2, flow in runpre(0, st):
+                self.release_scope(st2, depth, n)
+                st2.scope = depth - 1
+                yield st2, flow
+            return
         yield from runpre(0, st)
 
     def const_bool(self, c):
+        x = c
+        while isinstance(x, dict) and x.get('kind') in PASS_THROUGH + ('ImplicitCastExpr',):
+            if x.get('kind') == 'ConstantExpr' and x.get('value') is not None:
+                return x.get('value') not in ('0', 0, 'false')
+            inner = [y for y in x.get('inner', []) if isinstance(y, dict) and y.get('kind')]
+            if len(inner) != 1:
+                break
+            x = inner[0]
         c = self.strip(c)
         if c.get('kind') == 'ConstantExpr':
             v = c.get('value')
